@@ -1,0 +1,6 @@
+//go:build !verif
+
+package verifhook
+
+// Yield is a no-op without the verif build tag.
+func Yield(string) {}
